@@ -637,6 +637,11 @@ impl<'c> G<'c> {
                     continue;
                 }
             }
+            // now and then the tag is optional in one branch: then the union is not a discriminated one (a value of that
+            // branch may lack the tag) and must not be dispatched on it
+            if !indexed && s.chance(1, 9) {
+                props[0].optional = true;
+            }
             branches.push(D::Object { props, index: if indexed { Some(Box::new(D::Str)) } else { None } });
         }
         D::Union(branches)
